@@ -3,6 +3,7 @@ from .. import common as C, structs as S, clientgen as G
 from .c07 import run_histories, tok
 
 LEAN_MODULES = ["ZvtVerif.Properties.C20"]
+TRANSLATED = {"structs", "sequences", "errors"}      # translated tables this property consumes (a translator problem elsewhere does not break its tie)
 ASSUMPTIONS = ["fault-free transport; oracle = abstract specification (clientgen.Abs) + explicit identification check on the implementation's results"]
 
 
